@@ -43,7 +43,7 @@ describe(
         "shift by exactly the removed size; no str is passed where a sequence of names is expected; normalise and "
         "unnormalise are inverse operation sequences on the same components; subclasses forward minus_lb."
     ),
-    decided=["2.1 co-update of variable maps", "2.2 normalisation invalidation", "2.3 guarded reads / single writer of the normalisation cache", "2.4 current-value cache refresh", "2.5 affine index shifting", "2.6 str vs sequence of names", "2.7 inverse operation sequences", "2.8 override forwarding", "2.9 array/dict conversion order and cursor"],
+    decided=["2.1 co-update of variable maps", "2.2 normalisation invalidation", "2.3 guarded reads / single writer of the normalisation cache", "2.4 current-value cache refresh", "2.5 affine index shifting", "2.6 str vs sequence of names", "2.7 inverse operation sequences", "2.8 override forwarding", "2.9 array/dict conversion order and cursor", "2.4 refresh before any validation that may raise (or roll-back)", "2.10 ParameterSpace views in one order (rule groups 19.6/19.2 of C19)", "2.3-derived the normalised current value is dropped when the normalisation data are recomputed"],
     not_decided=["floating-point exactness of the bijection", "numerical agreement of check_membership / project_into_bounds", "CSV text precision"],
 )
 
